@@ -118,6 +118,8 @@ type Backend struct {
 	WriteChunk   int      `json:"write_chunk,omitempty"` // cap on every Write once the splits are used up
 	ExplicitHead bool     `json:"explicit_head,omitempty"`
 	IgnoreReadErr bool    `json:"ignore_read_err,omitempty"` // answer per script even if reading the request failed
+	CloseBody     bool    `json:"close_body,omitempty"`      // call Request.Body.Close() after reading, before answering (as proxies do)
+	CloseAfterWrites int  `json:"close_after_writes,omitempty"` // with CloseBody: close only after this many response Write calls
 }
 
 type Scenario struct {
@@ -592,7 +594,7 @@ func (br *benchRun) serviceHandler() http.Handler {
 			respond(&failed, view, w)
 			return
 		}
-		respond(br.sc, view, w)
+		respondWithBody(br.sc, view, w, r.Body)
 	})
 }
 
